@@ -1173,6 +1173,11 @@ func (e *CEnv) callExpr(x *CExpr) (Val, error) {
 		if e.old == nil {
 			return Val{}, fmt.Errorf("fresh() needs an old state")
 		}
+		if _, isSlice := as[0].T.Underlying().(*types.Slice); isSlice {
+			// a slice is fresh when its backing array was allocated by this call
+			b := app("sl_base", as[0].Term)
+			return Val{T: tBool, Term: and(not(eq(b, "0")), not(sel(c.heapGet(e.old, "alloc", allocSort), b)))}, nil
+		}
 		return Val{T: tBool, Term: and(not(eq(as[0].Term, "0")), not(sel(c.heapGet(e.old, "alloc", allocSort), as[0].Term)))}, nil
 	case "loopFresh":
 		// loopFresh(x): x was allocated after the loop (whose invariant this is) was entered
@@ -1329,6 +1334,22 @@ func (e *CEnv) callExpr(x *CExpr) (Val, error) {
 			g = c.ghostInit("calls")
 		}
 		return Val{T: tInt, Term: sel(g, fmt.Sprint(callNameID(nm)))}, nil
+	case "lastresult":
+		// lastresult(Name, k): result k of the most recent call named Name executed by this function
+		if len(x.Args) != 2 || x.Args[1] == nil {
+			return Val{}, fmt.Errorf("lastresult(Name, k)")
+		}
+		nm, okn := callsArgName(&CExpr{Args: x.Args[:1]})
+		k, errk := strconv.Atoi(x.Args[1].Name)
+		if !okn || errk != nil {
+			return Val{}, fmt.Errorf("lastresult(Name, k) or lastresult(recv.Name, k)")
+		}
+		lg := fmt.Sprintf("lastres.%d.%d", callNameID(nm), k)
+		g, ok := e.st.ghost[lg]
+		if !ok || c.ghostTypes[lg] == nil {
+			return Val{}, fmt.Errorf("lastresult(%s, %d): no such call has been executed on the way here", nm, k)
+		}
+		return Val{T: c.ghostTypes[lg], Term: g}, nil
 	case "sent", "received":
 		as, err := evalArgs()
 		if err != nil {
